@@ -102,7 +102,7 @@ def notify_subscribers(notifier: Resource, event_time: float):
             subscriber.put_nowait(
                 ResourceEvent(resource=notifier, event_time=event_time)
             )
-        except asyncio.QueueFull:
+        except (asyncio.QueueFull, asyncio.QueueShutDown):
             pass
             # TODO: I think there is a way to monitor for stalled subscribers
             # then notify a house-keeper process to deal with it.
